@@ -6,7 +6,8 @@ Decides from the syntax tree / CFG of hailtop/utils/utils.py (nothing is run):
   R2 parent    every await of asyncio.gather / asyncio.wait / _done_event.wait by the parent is inside `async with WithoutSemaphore(<sema>)`
   R3 order     tasks are built by an order-preserving comprehension over *pfs, every result return is `await asyncio.gather(*tasks)`,
                and bounded_gather / bounded_gather2 forward *pfs and the two flags unchanged
-  R4 errors    return_exceptions wraps each pf in a catch-all that returns (value, None) / (None, exc); with cancel_on_error the finally
+  R4 errors    return_exceptions wraps each pf in a catch-all that returns (value, None) / (None, exc); the raise variant's wrapper has no handler
+               that can complete without re-raising; with cancel_on_error the finally
                block, on the exceptional path, cancels every task that is not done (no early exit from the loop) and awaits all tasks
   R5 online    OnlineBoundedGather2: call registers the task and clears the event; run_and_cleanup deregisters on every normal exit;
                only the first exception is kept; __aexit__ leaves only through the false edge of `while self._pending` with no await after it
@@ -35,10 +36,12 @@ META = dict(
     text='Structural necessary conditions decided on the AST/CFG: lexical enclosure of every user-function call by the semaphore and of every '
          'parent wait by WithoutSemaphore, order-preserving construction and return of the task list, path enumeration through the clean-up '
          'loops (cancel-or-done on every iteration path, no early exit, all tasks awaited), exit-edge analysis of OnlineBoundedGather2.__aexit__, '
-         'release/acquire pairing of WithoutSemaphore on all exits and the holder protocol at the call sites in this file.  Not a proof over interleavings.',
+         'release/acquire pairing of WithoutSemaphore on all exits, the holder protocol at the call sites in this file, and parameter-flow / confinement of the '
+         'partial functions in the public wrappers (every contract parameter reaches the machinery on every value-returning path; the wrappers never start '
+         'the partial functions themselves).  Not a proof over interleavings.',
     note='Trusted: CPython ast; engines/pyfacts CFG; asyncio.Semaphore.release is unbounded (value may exceed the initial value); asyncio.gather '
          'returns results in argument order and propagates the first exception immediately.',
-    technique='static analysis: lexical enclosure + CFG path enumeration + release/acquire pairing on all exits',
+    technique='static analysis: lexical enclosure + CFG path enumeration + release/acquire pairing on all exits + parameter-flow on CFG paths',
     design_ref='DESIGN.md §3 C20',
 )
 
@@ -174,32 +177,41 @@ def _r3(ctx: Ctx, m: pf.Module) -> Dict[str, str]:
     g2v = g2.args.vararg.arg if g2.args.vararg else None
     ctx.need(len(g2p) == 1 and g2v is not None, f'{G2}: parameters changed')
     calls = [c for c in _own_nodes(g2) if isinstance(c, ast.Call) and pf.dotted(c.func) in (GR, GE)]
-    ctx.need(len(calls) == 2, f'{G2}: expected one call each of {GR} / {GE}')
+    ctx.need({pf.dotted(c.func) for c in calls} == {GR, GE}, f'{G2}: expected calls of both {GR} and {GE}')
+    cfg = pf.cfg(g2)
+
+    def implied_false_at(node: pf.Node, flag: str) -> bool:
+        return cfg.path_avoiding(cfg.entry, lambda n: n is node, lambda n: False,
+                                 edge_ok=lambda a, b, lab: not (a.kind == 'test' and lab in ('T', 'F') and af.implied_on_edge(a.ast, lab, flag, False))) is None
+    seen: Dict[str, int] = {}
     for c in calls:
-        cons = f'{F}::{G2}::{pf.dotted(c.func)}(...)'
+        nm = pf.dotted(c.func)
+        seen[nm] = seen.get(nm, 0) + 1
+        cons = f'{F}::{G2}::{nm}(...)' + (f'#{seen[nm]}' if seen[nm] > 1 else '')
         ok = [pf.nsrc(x) for x in c.args] == [g2p[0], f'*{g2v}']
         kw = {k.arg: pf.nsrc(k.value) for k in c.keywords}
-        if pf.dotted(c.func) == GR:
-            ok = ok and kw == {'cancel_on_error': 'cancel_on_error'}
+        host = [n for n in cfg.nodes if n.ast is not None and any(x is c for e in pf.node_exprs(n) for x in ast.walk(e))]
+        ctx.need(len(host) == 1, f'{G2}: call `{pf.nsrc(c)}` not located in the CFG')
+        if nm == GR:
+            ok = ok and (kw == {'cancel_on_error': 'cancel_on_error'} or (kw in ({}, {'cancel_on_error': 'False'}) and implied_false_at(host[0], 'cancel_on_error')))
         else:
             ok = ok and kw == {}
         ctx.check(ok, 'R3', cons, f'`{pf.nsrc(c)}` does not forward ({g2p[0]}, *{g2v}) and the cancel_on_error flag unchanged', m.path, c.lineno)
     # dispatch on return_exceptions
-    cfg = pf.cfg(g2)
     ge_nodes = af.stmt_nodes(cfg, lambda n: af.node_is_call(n, GE) is not None)
     gr_nodes = af.stmt_nodes(cfg, lambda n: af.node_is_call(n, GR) is not None)
     tests = [t for t in cfg.nodes if t.kind == 'test' and pf.nsrc(t.ast) == 'return_exceptions']
-    ok = len(tests) == 1 and len(ge_nodes) == 1 and len(gr_nodes) == 1 and af.every_path_uses_edge(cfg, ge_nodes[0], tests[0], 'T') \
-        and af.every_path_uses_edge(cfg, gr_nodes[0], tests[0], 'F')
+    ok = len(tests) == 1 and len(ge_nodes) >= 1 and len(gr_nodes) >= 1 and all(af.every_path_uses_edge(cfg, x, tests[0], 'T') for x in ge_nodes) \
+        and all(af.every_path_uses_edge(cfg, x, tests[0], 'F') for x in gr_nodes)
     ctx.check(ok, 'R3', f'{F}::{G2}::dispatch', 'bounded_gather2 does not select the return-exceptions variant iff return_exceptions is true', m.path, g2.lineno)
     g1 = m.func(G1)
     g1v = g1.args.vararg.arg if g1.args.vararg else None
     calls = [c for c in _own_nodes(g1) if isinstance(c, ast.Call) and pf.dotted(c.func) == G2]
-    ctx.need(len(calls) == 1 and g1v is not None, f'{G1}: expected one call of {G2}')
-    c = calls[0]
-    kw = {k.arg: pf.nsrc(k.value) for k in c.keywords}
-    ok = len(c.args) == 2 and pf.nsrc(c.args[1]) == f'*{g1v}' and kw == {'return_exceptions': 'return_exceptions', 'cancel_on_error': 'cancel_on_error'}
-    ctx.check(ok, 'R3', f'{F}::{G1}::{G2}(...)', f'`{pf.nsrc(c)}` does not forward *{g1v}, return_exceptions and cancel_on_error unchanged', m.path, c.lineno)
+    ctx.need(len(calls) >= 1 and g1v is not None, f'{G1}: expected a call of {G2}')
+    for i, c in enumerate(calls):
+        kw = {k.arg: pf.nsrc(k.value) for k in c.keywords}
+        ok = len(c.args) == 2 and pf.nsrc(c.args[1]) == f'*{g1v}' and kw == {'return_exceptions': 'return_exceptions', 'cancel_on_error': 'cancel_on_error'}
+        ctx.check(ok, 'R3', f'{F}::{G1}::{G2}(...)' + (f'#{i + 1}' if i else ''), f'`{pf.nsrc(c)}` does not forward *{g1v}, return_exceptions and cancel_on_error unchanged', m.path, c.lineno)
     return tasks_name
 
 
@@ -669,8 +681,6 @@ def _r7(ctx: Ctx, m: pf.Module) -> None:
 # ------------------------------------------------------------------------------------------------
 
 MACHINERY = (GR, GE)
-_SPAWNERS = ('asyncio.gather', 'asyncio.wait', 'asyncio.create_task', 'asyncio.ensure_future', 'asyncio.as_completed', 'asyncio.wait_for',
-             'asyncio.TaskGroup', 'asyncio.shield', 'asyncio.get_event_loop().create_task', 'asyncio.get_running_loop().create_task')
 
 
 def _family(m: pf.Module) -> Set[str]:
@@ -750,7 +760,8 @@ def _r8_r9(ctx: Ctx, m: pf.Module) -> None:
         ctx.need(rets, f'{qn}: no return')
 
         # ---- R9: what happens to the partial functions
-        bypass: List[Tuple[ast.AST, str]] = []
+        bypass: List[Tuple[ast.AST, str]] = []   # the wrapper itself starts partial functions
+        other: List[str] = []                    # the partial functions go somewhere that is not understood
         if vararg is not None:
             for u in _own_and_nested(fn):
                 if isinstance(u, ast.Name) and u.id == vararg and isinstance(u.ctx, ast.Load):
@@ -759,10 +770,25 @@ def _r8_r9(ctx: Ctx, m: pf.Module) -> None:
                         continue
                     if _in_test_position(par, u):
                         continue
-                    bypass.append((u, f'`{pf.nsrc(_stmt_of(par, u))}` uses the partial functions `{vararg}` outside a delegation'))
-        for c in _own_and_nested(fn):
-            if isinstance(c, ast.Call) and (pf.dotted(c.func) in _SPAWNERS or (pf.dotted(c.func) or '').endswith('.create_task')):
-                bypass.append((c, f'`{pf.nsrc(c)}` starts / awaits work in the wrapper itself'))
+                    if isinstance(p, ast.Call) and pf.dotted(p.func) == 'len' and p.args == [u]:
+                        continue
+                    started = None
+                    if isinstance(p, ast.comprehension) and p.iter is u:
+                        comp = par.get(p)
+                        tv = {x.id for x in ast.walk(p.target) if isinstance(x, ast.Name)}
+                        started = next((c for c in ast.walk(comp) if isinstance(c, ast.Call) and isinstance(c.func, ast.Name) and c.func.id in tv), None) if comp is not None else None
+                    elif isinstance(p, (ast.For, ast.AsyncFor)) and p.iter is u:
+                        tv = {x.id for x in ast.walk(p.target) if isinstance(x, ast.Name)}
+                        started = next((c for s2 in p.body for c in ast.walk(s2) if isinstance(c, ast.Call) and isinstance(c.func, ast.Name) and c.func.id in tv), None)
+                    elif isinstance(p, ast.Subscript) and p.value is u and isinstance(par.get(p), ast.Call) and par[p].func is p:
+                        started = par[p]
+                    if started is not None:
+                        bypass.append((u, f'`{pf.nsrc(_stmt_of(par, u))}` calls the partial functions itself (`{pf.nsrc(started)}`)'))
+                    else:
+                        other.append(f'`{pf.nsrc(_stmt_of(par, u))}` uses `{vararg}` in a way that is neither a delegation nor a recognisable start of the partial functions')
+        if other and not bypass:
+            declined.append(f'{qn}: {other[0]}')
+            continue
         cons9 = f'{F}::{qn}::partial functions reach only the machinery'
         if not bypass:
             ctx.need(dels, f'{qn}: neither delegates to the gather machinery nor touches its partial functions (idiom not recognised)')
@@ -871,7 +897,8 @@ def _thorough_callers(ctx: Ctx) -> None:
 
 def run(ctx: Ctx) -> None:
     ctx.explanation = ('Lexical enclosure of user-function calls by the semaphore and of parent waits by WithoutSemaphore, order-preserving task construction/return, '
-                       'path enumeration through the clean-up loops, exit-edge analysis of OnlineBoundedGather2, release/acquire pairing of WithoutSemaphore, holder protocol at call sites.')
+                       'path enumeration through the clean-up loops, exit-edge analysis of OnlineBoundedGather2, release/acquire pairing of WithoutSemaphore, holder protocol at call sites, '
+                       'parameter flow and confinement of the partial functions in the public wrappers.')
     ctx.rule('R1', 'every invocation of a user partial function is inside `async with <sema>`', 3)
     ctx.rule('R2', 'every parent await of gather/wait/_done_event.wait is inside `async with WithoutSemaphore(<sema>)`', 6)
     ctx.rule('R3', 'tasks built by an order-preserving comprehension over *pfs; results returned by gather(*tasks); wrappers forward *pfs and flags', 9)
